@@ -102,6 +102,13 @@ def main():
                 out["static%d/%s/ttf-after-otf" % (i, lib)] = sha(lambda: ufo2ft.compileTTF(g))
                 h = build_font(desc, lib)
                 out["static%d/%s/ttf-inplace" % (i, lib)] = sha(lambda: ufo2ft.compileTTF(h, inplace=True))
+                # fonts of other styles compiled in between (bold italic, italic, bold: each takes another branch of the style
+                # mapping code) must leave nothing behind in the process: the first font compiles as before
+                for style in ("Bold Italic", "Italic", "Bold"):
+                    d2 = dict(desc, info=dict(desc.get("info", {}), styleName=style))
+                    sha(lambda: ufo2ft.compileTTF(build_font(d2, lib)))
+                    sha(lambda: ufo2ft.compileOTF(build_font(d2, lib)))
+                out["static%d/%s/ttf-after-other-styles" % (i, lib)] = sha(lambda: ufo2ft.compileTTF(build_font(desc, lib)))
                 if mode == "thorough" or i == 0:
                     p = os.path.join(work, "f%d-%s.ufo" % (i, lib))
                     build_font(desc, lib).save(p)
